@@ -464,6 +464,37 @@ func c20Rejected(w *mon.W) {
 		w.Op = "size.Of(value holding a channel)"
 		size.Of(bad)
 	}()
+	// whether a value can be measured depends on what its interfaces hold right now, not on its static type (round 14
+	// seeded a cache of "unmeasurable" top-level types filled by the recovered panic): the same static types again,
+	// holding measurable things
+	type rec struct {
+		A interface{}
+		B string
+	}
+	pairs := [][2]interface{}{
+		{[]interface{}{1, make(chan int)}, []interface{}{int32(1), "two", nil}},
+		{map[string]interface{}{"k": func() {}}, map[string]interface{}{"k": uint8(3), "kk": "v"}},
+		{rec{A: make(chan string), B: "x"}, rec{A: []int16{1, 2}, B: "yy"}},
+		{[]rec{{A: make(chan int)}}, []rec{{A: int64(5), B: "z"}, {}}},
+		{[2]interface{}{nil, make(chan bool)}, [2]interface{}{"a", int8(2)}},
+		{&rec{A: func() {}}, &rec{A: "str", B: "b"}},
+	}
+	for _, p := range pairs {
+		func() {
+			defer func() { recover() }()
+			w.Op = "size.Of(value holding a channel or func)"
+			size.Of(p[0])
+		}()
+		good := p[1]
+		w.Op = "size.Of(same static type, measurable content, after a recovered panic)"
+		n, pan := c20CallOf(good)
+		if e := c20Literal(reflect.ValueOf(good)); pan != "" || n != e {
+			w.Fail("Of/after-recovered-panic-on-the-same-static-type", mon.D{"type": fmt.Sprintf("%T", good), "got": n, "panic": pan, "expected": e})
+			return
+		}
+		w.Eval(1)
+	}
+	w.Bucket("rejected-value-then-measurable-value-of-the-same-type")
 }
 
 func c20Observe(w *mon.W, x interface{}, expected int, class string) {
